@@ -313,7 +313,10 @@ func (f *OptionalField) DoRead(r io.ReadSeeker, pg Page) (io.Reader, []int, erro
 		if err != nil {
 			return nil, nil, err
 		}
-		f.Defs = append(f.Defs, defs[:int(ph.DataPageHeader.NumValues)]...)
+		// a bit-packed run is padded to a multiple of 8 values; the padding
+		// is not part of the page and must not be counted as values
+		defs = defs[:int(ph.DataPageHeader.NumValues)]
+		f.Defs = append(f.Defs, defs...)
 		l += l2
 
 		n := f.valsFromDefs(defs, uint8(f.MaxLevels.Def))
